@@ -231,7 +231,7 @@ var (
 
 func run(r *ev.Run) {
 	setupChains()
-	r.Rule("E3 complete products through the real HandleMsg4: (A) opcode 0..255 x message type {absent,0..255} with a rich header; (B) op=1,type in {DISCOVER,REQUEST} x xid{0,ffffffff,01020304} x htype{1,6,255} x hlen{0,6,16,17,255} x flags{0,8000,7fff,ffff} x giaddr{0,set} x ciaddr{0,set} x opt82 x opt61 x chain{empty,range,server_id+range,NAK plugin,nil plugin}; (B2) option 82 of {absent,1,2,100,190,200,255} octets x option 61 of {absent,2,80,255} x option 57 {absent,300,576,1500} x giaddr x type x chain; (B3) the same requests with every send failing / the raw socket refused (EPERM, EACCES): what is handed to the socket still matches; (C) every truncation of 3 seeds. Oracle on raw bytes with an independent parser. Class = chain/opcode class/type class/#replies/reply type.")
+	r.Rule("E3 complete products through the real HandleMsg4: (A) opcode 0..255 x message type {absent,0..255} with a rich header; (B) op=1,type in {DISCOVER,REQUEST} x xid{0,ffffffff,01020304} x htype{1,6,255} x hlen{0,6,16,17,255} x flags{0,8000,7fff,ffff} x giaddr{0,set} x ciaddr{0,set} x opt82 x opt61 x chain{empty,range,server_id+range,NAK plugin,nil plugin}; (B2) option 82 of {absent,1,2,100,190,200,255} octets x option 61 of {absent,2,80,255} x option 57 {absent,300,576,1500} x giaddr x type x chain; (B3) the same requests with every send failing / the raw socket refused (EPERM, EACCES): what is handed to the socket still matches; (B4) every other option code in three payload shapes added to a relayed request; (C) every truncation of 3 seeds. Oracle on raw bytes with an independent parser. Class = chain/opcode class/type class/#replies/reply type.")
 	r.Assume("listener bound to " + bif.Name + "; reply captured at WriteTo or as the L2 frame before the AF_PACKET socket; malformed message-type options (length != 1) and a missing END option are not asserted")
 	// (A)
 	for op := 0; op < 256; op++ {
@@ -315,6 +315,21 @@ func run(r *ev.Run) {
 						}
 					}
 				}
+			}
+		}
+	}
+	// (B4) options the statement does not name: the reply still matches its request
+	for _, chain := range chainNames {
+		for _, mt := range []byte{1, 3} {
+			for i, x := range pkt.Extra4(61, 82) {
+				p := richHeader()
+				p.Opts = []pkt.Opt4{{Code: 53, Data: []byte{mt}}, opt82, opt61}
+				if i%2 == 0 {
+					p.Opts = append([]pkt.Opt4{x}, p.Opts...)
+				} else {
+					p.Opts = append(p.Opts, x)
+				}
+				eval(r, chain, p.Bytes(), fmt.Sprintf("extra option %d (%d octets)", x.Code, len(x.Data)))
 			}
 		}
 	}
